@@ -161,8 +161,12 @@ BeginJ ==
   /\ pc = "idle" /\ ops < MaxOps /\ Live /\ (~EnvWal \/ (AllowFromWal /\ WalGone))
   /\ pc' = (IF EnvWal THEN "j_rmwal" ELSE "j_create") /\ todo' = <<>> /\ ops' = ops + 1
   /\ UNCHANGED <<dvars, lvars, refImg, salts, mx, ckpted, mvars>>
-  /\ \E ns \in 1..MaxPg, M \in SUBSET Pages, out \in {"commit", "rb_early", "rb_spill"},
-        fin \in FinModes, nosync \in BOOLEAN, toWal \in BOOLEAN, E \in SUBSET Pages, F \in SUBSET Pages :
+  \* (the domains of M, E and F are written as narrow as their constraints allow: in simulation mode TLC
+  \* enumerates every successor of a state before it picks one)
+  /\ \E ns \in 1..MaxPg, out \in {"commit", "rb_early", "rb_spill"}, fin \in FinModes, nosync \in BOOLEAN, toWal \in BOOLEAN :
+     \E M \in SUBSET (1..ns) :
+     \E E \in (IF AllowBeyond /\ out = "commit" THEN SUBSET ((ns + 1)..MaxPg) ELSE {{}}),
+        F \in (IF AllowFreeReuse /\ out = "rb_spill" THEN SUBSET ((2..CurSize) \ M) ELSE {{}}) :
        /\ 1 \in M /\ M \subseteq 1..ns /\ (((CurSize + 1)..ns) \ {LockPg}) \subseteq M /\ LockPg \notin M
        /\ ns # LockPg          \* SQLite never ends a database on the lock page (it skips it when it grows)
        \* E: pages beyond the committed size that were spilled to the file during the transaction and
@@ -322,7 +326,10 @@ BeginW ==
   /\ pc = "idle" /\ ops < MaxOps /\ Live /\ EnvWal
   /\ pc' = "w_hdr" /\ todo' = <<>> /\ ops' = ops + 1
   /\ UNCHANGED <<dvars, lvars, refImg, salts, mx, ckpted, mvars>>
-  /\ \E ns \in 1..MaxPg, M \in SUBSET Pages, out \in {"commit", "rollback"}, dup \in {0} \cup Pages, E \in SUBSET Pages :
+  /\ \E ns \in 1..MaxPg, out \in {"commit", "rollback"} :
+     \E M \in SUBSET (1..ns) :
+     \E dup \in (IF AllowSpill THEN {0} \cup M ELSE {0}),
+        E \in (IF AllowBeyond /\ out = "commit" THEN SUBSET ((ns + 1)..MaxPg) ELSE {{}}) :
        /\ 1 \in M /\ M \subseteq 1..ns /\ (((CurSize + 1)..ns) \ {LockPg}) \subseteq M /\ LockPg \notin M
        /\ ns # LockPg          \* SQLite never ends a database on the lock page (it skips it when it grows)
        /\ (dup # 0 => dup \in M /\ AllowSpill)
